@@ -1,7 +1,6 @@
 package pongo2
 
 import (
-	"errors"
 	"fmt"
 	"reflect"
 	"strconv"
@@ -290,18 +289,13 @@ func (vr *variableResolver) resolve(ctx *ExecutionContext) (*Value, error) {
 	if len(vr.parts) > 0 && vr.parts[0].typ == varTypeArray {
 		items := make([]*Value, 0)
 		for _, part := range vr.parts {
-			switch v := part.subscript.(type) {
-			case *nodeFilteredVariable:
-				// the item with its filter chain, e.g. [name|upper, 3|add:1]
-				item, err := v.Evaluate(ctx)
-				if err != nil {
-					return nil, err
-				}
-
-				items = append(items, item)
-			default:
-				return nil, errors.New("unknown variable type is given")
+			// an item is any expression the parser accepted: a filtered
+			// term ([name|upper, 3|add:1]) or an operator expression ([1+2, -x])
+			item, err := part.subscript.Evaluate(ctx)
+			if err != nil {
+				return nil, err
 			}
+			items = append(items, item)
 		}
 
 		return &Value{
